@@ -330,7 +330,7 @@ fn load_fetch_states(
 
                 // the "latest" offset is the offset of the "next coming message"
                 let offset = match consumed_offsets.get(&tp) {
-                    Some(co) if co.offset >= e_off && co.offset < l_off => co.offset + 1,
+                    Some(co) if co.offset + 1 >= e_off && co.offset < l_off => co.offset + 1,
                     _ => match config.fallback_offset {
                         FetchOffset::Latest => l_off,
                         FetchOffset::Earliest => e_off,
